@@ -319,7 +319,7 @@ def monitor_prio(kind):
                     if any(q not in ps for q in cps):
                         fails.append("divider called with an unknown priority %s" % (cps,))
             if m["fault"]:
-                delta = next(a for (c, a, s_) in m["ops"] if c in (5, 7))
+                delta = next((a for (c, a, s_) in m["ops"] if c in (5, 7)), 0)
                 hit = tr.extra[2] if tr.extra and len(tr.extra) > 2 else 0
                 if hit == 1 and delta > 0 and tr.err != 1:
                     fails.append("a division over-allocating by %d was made but ErrDividerBad was not reported (closed=%d err=%d)" % (delta, tr.closed, tr.err))
@@ -671,7 +671,7 @@ def monitor_prio1(kind):
                     if d > H:
                         fails.append("divider called with dividend %d > HandlersQuantity %d" % (d, H))
             if m["fault"]:
-                delta = next(a for (c, a, b, s_) in m["ops"] if c in (5, 7))
+                delta = next((a for (c, a, b, s_) in m["ops"] if c in (5, 7)), 0)
                 if extra[2] == 1 and delta > 0 and tr.done == 1 and tr.err not in (1, 2) and not m["stop"]:
                     fails.append("a division over-allocating by %d was made but no error was reported (err=%d)" % (delta, tr.err))
         return [("%s [%s H=%d inputs=%s style=%s ops=%d]" % (f, m["divider"], H, m["cfg"], m["style"], len(m["ops"])), key) for f in fails[:3]]
